@@ -10,6 +10,9 @@ import copy
 import io
 import contextlib
 import json
+import os
+import subprocess
+import sys
 import warnings
 import numpy as np
 
@@ -35,6 +38,9 @@ THEOREMS = [P + n for n in (
     'resolveIdx_lt', 'getitem_resolved', 'resolveIdx_neg', 'resolveIdx_mask', 'resolveIdx_slice_all',
     'append_desc_rules', 'concat_desc_rules', 'odesc_kept_or_demoted', 'fromPartials_desc_rules',
     'b2vLen_triangular', 'pairSelected_and', 'triuOffset_strict', 'selCmp_eq',
+    # round 6: dictionaries are finite maps (append does not see the insertion order), tied by the leaf appendByName
+    'appendByName_spec', 'appendGet_by_name', 'append_rdesc_coded', 'appendDesc_lookup', 'keys_set',
+    'append_desc_order_free', 'append_obj_order_free',
 )]
 RULE = ('one PRNG; a case is 1-3 initial RDMs objects (1-4 RDMs x 1-6 conditions, unique integer '
         'tags as values, some NaN; rdm/pattern descriptors str/int, list/array, with duplicate '
@@ -44,7 +50,10 @@ RULE = ('one PRNG; a case is 1-3 initial RDMs objects (1-4 RDMs x 1-6 conditions
         'float-valued descriptors, `rdms[...]` with int / negative / list / tuple / ndarray / range / slice / '
         'boolean-mask indices, tuple values, sort_by with two keys, concat of a list / tuple / generator, '
         'append that drops keys followed by a merge; `resolveIdx` against numpy on random (thorough: all '
-        'small) index specs; the whole store is compared after every step.  distinct = '
+        'small) index specs; the whole store is compared after every step; round 6: the rdm / pattern / object '
+        'descriptor dictionaries of the initial objects carry the same names in explicitly permuted insertion '
+        'orders, with an explicit `index` first / in the middle / last / absent, and a sample of the sessions is '
+        're-run in sub-processes under several PYTHONHASHSEED values (identical canonical results demanded).  distinct = '
         'distinct (initial shapes, operation-name sequence, argument digest); non-trivial = at '
         'least one operation changed or created an object')
 OPS = ['getitem', 'iter', 'len', 'reversed', 'subset', 'subsample', 'subset_pattern', 'subsample_pattern', 'reorder',
@@ -67,7 +76,11 @@ BRANCHES = ['op:' + o for o in OPS] + [
     'desc:float', 'desc:float_selected', 'value:tuple', 'concat:generator', 'concat:tuple', 'concat:seq_realign',
     'meas:set', 'meas:none', 'meas:mixed_rejected', 'meas:permuted', 'meas:from_partials_mixed',
     'append:drops_key', 'append_then_merge', 'merge:none_fill', 'leaf:resolve_idx',
-    'to_df:float_desc', 'to_df:none_desc']
+    'to_df:float_desc', 'to_df:none_desc',
+    # round 6: same names, different insertion order of the descriptor dictionaries; hash-seed independence
+    'dict-order:permuted-append', 'dict-order:permuted-concat', 'dict-order:index-explicit',
+    'dict-order:append-after-merge', 'dict-order:pdesc-permuted', 'dict-order:odesc-permuted',
+    'dict-order:permuted-from_partials', 'hashseed:subprocess']
 ASSUMPTIONS = [
     'values are small integers, exactly representable in float64 and Rat',
     'admissible arguments: selection values of the descriptor\'s own kind; reorder/permute orders are '
@@ -441,6 +454,12 @@ def _leaf_impl(case):
 
 
 def run_impl(case):
+    if case.get('kind') == 'hashseeds':
+        return _hash_batch(case, with_oracle=False)
+    return _run_session(case)
+
+
+def _run_session(case):
     store, exc0 = _make_store(case)
     if store is None:
         return {'init': f'constructor raised {exc0}', 'steps': [],
@@ -455,6 +474,107 @@ def run_impl(case):
             steps.append({'exc': exc is not None, 'store': [dump_real(r) for r in store], 'exc_name': exc})
     return {'init': [dump_real(r) for r in _make_store(case)[0]], 'steps': steps, 'leaf': _leaf_impl(case),
             'idxs': _idx_impl(case), 'cm': concat_mutates(), 'pk': permute_keeps()}
+
+
+# ------------------------------------------------------------------ round 6: hash-seed independence
+#
+# The library builds some dictionaries from *sets* of names (`_merged_rdm_descriptors`), so the
+# insertion order of a merged object's descriptor dictionary depends on the process hash seed.  The
+# property speaks about names, never about positions: the canonical result of a session must be the
+# same under every PYTHONHASHSEED.  A batch case re-runs its member sessions in fresh sub-processes,
+# one per hash seed (never fixing the seed of the checking process itself, which would hide
+# order-dependent defects), and demands identical canonical results and a silent oracle under each.
+
+HASHSEEDS_QUICK = (0, 1, 2)
+HASHSEEDS_THOROUGH = (0, 1, 2, 3, 4, 5)
+_HARNESS = os.path.dirname(os.path.dirname(os.path.abspath(__file__)))
+
+
+def _canon(res):
+    return json.dumps(res, sort_keys=True, default=str)
+
+
+def _hash_main():
+    """worker (sub-process): sessions on stdin -> canonical results (+ oracle verdicts) on stdout"""
+    job = json.load(sys.stdin)
+    out = []
+    for c in job['cases']:
+        rec = {'impl': _canon(_run_session(c))}
+        if job.get('oracle'):
+            try:
+                rec['oracle'] = oracle(c)
+            except Exception as exc:  # noqa: BLE001
+                rec['oracle'] = {'what': f'oracle raised {type(exc).__name__}: {exc}'[:200], 'step': -1,
+                                 'features': {'fail_op': 'hashseed', 'fail_kind': 'raised'}}
+        out.append(rec)
+    sys.stdout.write(json.dumps(out, default=str))
+
+
+def _hash_workers(cases, seeds, with_oracle):
+    repo_src = os.path.join(os.environ.get('RSA_REPO', '/repo'), 'src')
+    code = ('import sys; sys.path[:0] = [%r, %r]; from engines import C10; C10._hash_main()' % (repo_src, _HARNESS))
+    job = json.dumps({'cases': cases, 'oracle': bool(with_oracle)}, default=str).encode()
+    procs = []
+    for sd in seeds:
+        env = dict(os.environ, PYTHONHASHSEED=str(sd), TQDM_DISABLE='1')
+        procs.append(subprocess.Popen([sys.executable, '-c', code], stdin=subprocess.PIPE, stdout=subprocess.PIPE,
+                                      stderr=subprocess.PIPE, env=env))
+    for pr in procs:          # all workers run concurrently
+        pr.stdin.write(job)
+        pr.stdin.close()
+    outs = {}
+    for sd, pr in zip(seeds, procs):
+        data = pr.stdout.read()
+        err = pr.stderr.read()
+        rc = pr.wait()
+        if rc != 0:
+            raise RuntimeError(f'hash-seed worker {sd} exited {rc}: {err.decode(errors="replace")[-400:]}')
+        outs[sd] = json.loads(data.decode())
+    return outs
+
+
+def _hash_batch(case, with_oracle):
+    """{'seeds', 'n', 'differ': [[k, seed_a, seed_b, text]], 'oracle': [[k, seed, verdict]]} for a batch case"""
+    subs, seeds = case['cases'], list(case['seeds'])
+    outs = _hash_workers(subs, seeds, with_oracle)
+    own = [_canon(_run_session(c)) for c in subs]          # the checking process itself (its own, unfixed seed)
+    differ, fails = [], []
+    for k in range(len(subs)):
+        runs = [('own', own[k])] + [(sd, outs[sd][k]['impl']) for sd in seeds]
+        for sd, txt in runs[1:]:
+            if txt != runs[0][1]:
+                d = _diff(json.loads(runs[0][1]), json.loads(txt), 'result') or 'results differ'
+                differ.append([k, runs[0][0], sd, d])
+                break
+        if with_oracle:
+            for sd in seeds:
+                if outs[sd][k].get('oracle'):
+                    fails.append([k, sd, outs[sd][k]['oracle']])
+                    break
+    return {'seeds': seeds, 'n': len(subs), 'differ': differ, 'oracle': fails}
+
+
+def _hash_oracle(case):
+    res = _hash_batch(case, with_oracle=True)
+    if res['oracle']:
+        k, sd, o = res['oracle'][0]
+        o = dict(o)
+        o['detail'] = f"under PYTHONHASHSEED={sd}, session {k} of the batch: " + str(o.get('detail', ''))
+        o['hashseed'], o['session'] = sd, k
+        return o
+    if res['differ']:
+        k, a, b, d = res['differ'][0]
+        return {'what': 'the result of a session depends on the process hash seed (PYTHONHASHSEED): set iteration '
+                        'order inside the library decides which value a descriptor name gets',
+                'detail': f'session {k} of the batch, hash seed {a} vs {b}: {d}', 'session': k, 'step': -1,
+                'observed': d, 'expected': 'identical canonical results under every hash seed',
+                'features': {'fail_op': 'hashseed', 'fail_kind': 'wrong_result', 'fail_exc': None,
+                             'fail_role': 'result'}}
+    return None
+
+
+def hash_batch_case(cases, seeds):
+    return {'kind': 'hashseeds', 'seeds': list(seeds), 'cases': cases, 'objs': [], 'ops': [], 'lens': []}
 
 # ------------------------------------------------------------------ model side
 
@@ -510,6 +630,8 @@ def _model_ops(case):
 
 
 def model_requests(case):
+    if case.get('kind') == 'hashseeds':
+        return []
     if any(o.get('form') == '4d' for o in case['objs']):
         return []          # not an RDM stack at all: nothing the model could be asked
     ops, _ = _model_ops(case)
@@ -562,6 +684,8 @@ def _untag_obj(o, tm, meas=None):
 
 
 def model_result(case, answers):
+    if case.get('kind') == 'hashseeds':
+        return {'differ': [], 'oracle': []}
     if not answers:
         return {'init': 'constructor rejects', 'steps': [], 'leaf': [], 'idxs': []}
     a = answers[0]
@@ -626,6 +750,11 @@ def _diff(a, b, path=''):
 
 
 def compare(case, impl, model):
+    if case.get('kind') == 'hashseeds':
+        if impl['differ']:
+            k, a, b, d = impl['differ'][0]
+            return f'hash seeds {a} vs {b}: session {k} of the batch gives different canonical results: {d}'[:400]
+        return None
     if 'model_error' in model:
         return f'model error {model}'
     if isinstance(impl['init'], str) or isinstance(model['init'], str):
@@ -758,6 +887,8 @@ def _fail(case, k, detail, observed, expected, kind, exc=None, role=None):
 
 
 def oracle(case):
+    if case.get('kind') == 'hashseeds':
+        return _hash_oracle(case)
     U = _rsa()[2]
     permute_keeps()            # sets ref.PK
     for ln in case.get('lens', []):
@@ -1064,6 +1195,40 @@ def gen_obj(rng, tags, n=None, nr=None, conds=None):
         o['pdesc'] = []
         o['no_pdesc_arg'] = True
         o['arr'] = [k for k in arr if k in ('subj', 'sess')]
+    dict_order(rng, o)
+    if rng.random() < 0.4:
+        o['arr'] = o['arr'] + ['index']
+    return o
+
+
+def _explicit_index(rng, cols, count, p_explicit, canonical=0.7):
+    """round 6: an explicit `index` entry first / in the middle / last, or none (the constructor then adds it
+    last); mostly the values the constructor would give, sometimes other integers"""
+    cols = [kv for kv in cols if kv[0] != 'index']
+    if rng.random() >= p_explicit:
+        return cols
+    vals = list(range(count))
+    if rng.random() >= canonical:
+        vals = rng.choice([list(reversed(vals)), [v + 5 for v in vals], [rng.randint(0, 2) for _ in vals]])
+    pos = rng.choice(['first', 'mid', 'last'])
+    at = {'first': 0, 'mid': len(cols) // 2 if len(cols) > 1 else 0, 'last': len(cols)}[pos]
+    return cols[:at] + [['index', vals]] + cols[at:]
+
+
+def dict_order(rng, o, p_shuffle=0.6):
+    """round 6: the same names in another insertion order of the rdm / pattern / object descriptor
+    dictionaries (dictionaries are finite maps: nothing may depend on it, except the documented default
+    alignment target of `concat` = the first pattern descriptor without repeats)"""
+    nr, n = len(o['vecs']), ref.n_from_len(len(o['vecs'][0]))
+    if rng.random() < p_shuffle:
+        rng.shuffle(o['rdesc'])
+    o['rdesc'] = _explicit_index(rng, o['rdesc'], nr, 0.3)
+    if o['pdesc']:
+        if rng.random() < p_shuffle / 2:
+            rng.shuffle(o['pdesc'])
+        o['pdesc'] = _explicit_index(rng, o['pdesc'], n, 0.15, canonical=0.85)
+    if rng.random() < p_shuffle:
+        rng.shuffle(o['odesc'])
     return o
 
 
@@ -1275,8 +1440,8 @@ def gen_case(rng, max_ops, weights=None, n_objs=None):
             conds = list(conds0)
             rng.shuffle(conds)
             o = gen_obj(rng, tags, n=len(conds), conds=conds)
-            o['pdesc'] = [['conds', conds]] + [kv for kv in o['pdesc'] if kv[0] not in ('conds', 'grp')]
-            o['rdesc'] = [[kk, [_rdesc_value(rng, kk) for _ in o['vecs']]] for kk, _ in base['rdesc']]
+            o['pdesc'] = [['conds', conds]] + [kv for kv in o['pdesc'] if kv[0] not in ('conds', 'grp', 'index')]
+            o['rdesc'] = [[kk, [_rdesc_value(rng, kk) for _ in o['vecs']]] for kk, _ in base['rdesc'] if kk != 'index']
             o['odesc'] = [[kk, (rng.choice(['t1', 't2']) if kk == 'task' else rng.randint(1, 2))]
                           for kk, _ in base['odesc']]
             if rng.random() < 0.45:     # heterogeneous descriptor keys
@@ -1284,12 +1449,15 @@ def gen_case(rng, max_ops, weights=None, n_objs=None):
                     o['rdesc'] = o['rdesc'] + [['extra', [rng.randint(1, 9) for _ in o['vecs']]]]
                 else:
                     o['odesc'] = o['odesc'][1:] + [['note', rng.choice(['x', 'y'])]]
+            # round 6: the sibling lists the same names in its own insertion order (built by other code)
+            dict_order(rng, o, p_shuffle=0.7)
             o['arr'] = [kk for kk, _ in o['pdesc'] + o['rdesc'] if rng.random() < 0.5]
         elif mode < 0.8:
             o = gen_obj(rng, tags)
-            o['rdesc'] = [[kk, [_rdesc_value(rng, kk) for _ in o['vecs']]] for kk, _ in base['rdesc']]
+            o['rdesc'] = [[kk, [_rdesc_value(rng, kk) for _ in o['vecs']]] for kk, _ in base['rdesc'] if kk != 'index']
             o['odesc'] = [[kk, (rng.choice(['t1', 't2']) if kk == 'task' else rng.randint(1, 2))]
                           for kk, _ in base['odesc']]
+            dict_order(rng, o, p_shuffle=0.7)
             o['arr'] = [kk for kk, _ in o['pdesc'] + o['rdesc'] if rng.random() < 0.5]
         else:
             o = gen_obj(rng, tags)
@@ -1467,6 +1635,56 @@ def fixed_cases_r3():
         {'op': 'getitem', 'src': 0, 'idx': {'kind': 'mask', 'l': [True, True, True], 'form': 'ndarray'}}]}
 
 
+def fixed_cases_r6():
+    """round 6: the same descriptor names in different insertion orders; an explicit `index` first / in the
+    middle; append / concat / from_partials across such objects, and append of / to a merged object"""
+    pd_a = [['conds', ['b', 'a', 'ab', 'c10']], ['cat', [1, 0, 1, 2]]]
+    pd_b = [['cat', [0, 1, 2, 1]], ['conds', ['a', 'ab', 'c10', 'b']]]
+    A = {'vecs': [[1, 2, 3, 4, 5, 6], [7, 8, 9, 10, 11, 12]], 'odesc': [['task', 't1'], ['run', 1]],
+         'rdesc': [['sess', [1, 2]], ['subj', ['s7', 's7']], ['roi', ['V1', 'IT']]], 'pdesc': pd_a, 'arr': ['subj']}
+    B = {'vecs': [[21, 22, 23, 24, 25, 26], [27, 28, 29, 30, 31, 32], [33, 34, 35, 36, 37, 38]],
+         'odesc': [['run', 1], ['task', 't1']],
+         'rdesc': [['roi', ['V4', 'V1', 'IT']], ['subj', ['s12', 's12', 's31']], ['sess', [3, 4, 5]]],
+         'pdesc': pd_b, 'arr': ['roi', 'conds']}
+    Ci = dict(A, vecs=[[41, 42, 43, 44, 45, 46]],
+              rdesc=[['index', [0]], ['sess', [6]], ['subj', ['s40']], ['roi', ['V2']]], arr=['index'])
+    Di = dict(B, vecs=[[51, 52, 53, 54, 55, 56], [57, 58, 59, 60, 61, 62]],
+              rdesc=[['subj', ['s50', 's51']], ['index', [1, 0]], ['roi', ['V3', 'V3']], ['extra', [8, 9]],
+                     ['sess', [7, 8]]], arr=[])
+    # every rotation / transposition of the argument's order against the receiver's
+    for order in (['sess', 'roi', 'subj'], ['subj', 'sess', 'roi'], ['subj', 'roi', 'sess'], ['roi', 'sess', 'subj']):
+        cols = dict(map(tuple, B['rdesc']))
+        Bp = dict(B, rdesc=[[k, cols[k]] for k in order])
+        yield {'objs': [A, Bp], 'lens': [], 'idxs': [], 'ops': [
+            {'op': 'append', 'src': 0, 'other': 1}, {'op': 'to_df', 'src': 0},
+            {'op': 'getitem', 'src': 0, 'idx': {'kind': 'int', 'i': 3}}]}
+    yield {'objs': [A, B], 'lens': [], 'idxs': [], 'ops': [
+        {'op': 'append', 'src': 0, 'other': 1}, {'op': 'to_df', 'src': 0},
+        {'op': 'subset', 'src': 0, 'by': 'roi', 'vals': ['V4', 'IT']},
+        {'op': 'append', 'src': 1, 'other': 0}, {'op': 'iter', 'src': 1}]}
+    yield {'objs': [Ci, B, Di], 'lens': [], 'idxs': [], 'ops': [
+        {'op': 'append', 'src': 0, 'other': 1}, {'op': 'to_df', 'src': 0},      # receiver: explicit index first
+        {'op': 'append', 'src': 1, 'other': 2}, {'op': 'to_df', 'src': 1},      # argument: index in the middle, extra key
+        {'op': 'append', 'src': 0, 'other': 2}, {'op': 'dict', 'src': 0},
+        {'op': 'concat', 'srcs': [0, 2], 'argform': 'list'}, {'op': 'to_df', 'src': 4}]}
+    yield {'objs': [A, B, Ci], 'lens': [], 'idxs': [], 'ops': [
+        {'op': 'concat', 'srcs': [0, 1], 'argform': 'varargs'}, {'op': 'to_df', 'src': 3},     # permuted-concat
+        {'op': 'append', 'src': 3, 'other': 2}, {'op': 'to_df', 'src': 3},                     # merged.append(c)
+        {'op': 'append', 'src': 2, 'other': 3}, {'op': 'iter', 'src': 2},                      # c.append(merged)
+        {'op': 'concat', 'srcs': [1, 0], 'argform': 'tuple'},
+        {'op': 'append', 'src': 0, 'other': 4}, {'op': 'to_df', 'src': 0},
+        {'op': 'getitem', 'src': 0, 'idx': {'kind': 'list', 'l': [4, 0, 1]}},
+        {'op': 'concat', 'srcs': [5, 1], 'argform': 'gen'}, {'op': 'to_df', 'src': 6}]}
+    yield {'objs': [A, B, Ci], 'lens': [], 'idxs': [], 'ops': [
+        {'op': 'from_partials', 'srcs': [0, 1], 'all': None, 'desc': 'conds'}, {'op': 'to_df', 'src': 3},
+        {'op': 'append', 'src': 3, 'other': 3},
+        {'op': 'subset_pattern', 'src': 1, 'by': 'conds', 'vals': ['a', 'b', 'ab']},
+        {'op': 'from_partials', 'srcs': [4, 2, 0], 'all': ['c10', 'b', 'ab', 'a'], 'desc': 'conds'},
+        {'op': 'to_df', 'src': 5},
+        {'op': 'from_partials', 'srcs': [2], 'all': None, 'desc': 'conds'},
+        {'op': 'append', 'src': 6, 'other': 5}, {'op': 'iter', 'src': 6}]}
+
+
 def exhaustive_index_specs():
     """every slice with bounds in -n-2 … n+2 / None and step ±1, ±2, ±3, every int, every mask, for n ≤ 4:
     `resolveIdx` against numpy"""
@@ -1492,13 +1710,35 @@ def generate(rng, tier):
     if tier != 'quick':
         a = next(fixed_cases())['objs'][0]
         yield {'objs': [a], 'ops': [], 'lens': [], 'idxs': exhaustive_index_specs()}
+    r6 = list(fixed_cases_r6())
+    yield from r6
     if tier == 'quick':
-        for _ in range(1000):
-            yield gen_case(rng, 10)
+        sessions = [gen_case(rng, 10) for _ in range(1000)]
+        yield hash_batch_case(r6 + _hash_sample(rng, sessions, 50), HASHSEEDS_QUICK)
+        yield from sessions
     else:
         yield from exhaustive_short(rng)
-        for _ in range(5000):
-            yield gen_case(rng, 30)
+        sessions = [gen_case(rng, 30) for _ in range(5000)]
+        yield hash_batch_case(r6 + _hash_sample(rng, sessions, 600), HASHSEEDS_THOROUGH)
+        yield from sessions
+
+
+def _hash_sample(rng, sessions, k):
+    """sessions re-run under several hash seeds: those in which a merged object (whose dictionaries the
+    library builds from sets) is used again, then appends, then anything"""
+    def score(c):
+        names = [op['op'] for op in c['ops']]
+        merges = [q for q, nm in enumerate(names) if nm in ('concat', 'from_partials')]
+        if merges and 'append' in names[merges[0]:]:
+            return 0
+        if merges:
+            return 1
+        return 2 if 'append' in names else 3
+    pool = [c for c in sessions if c['ops']]
+    rng_order = list(range(len(pool)))
+    rng.shuffle(rng_order)
+    rng_order.sort(key=lambda q: score(pool[q]))
+    return [pool[q] for q in rng_order[:k]]
 
 
 def exhaustive_short(rng):
@@ -1575,6 +1815,10 @@ def search(rng, tier):
 
 
 def features(case, impl):
+    if case.get('kind') == 'hashseeds':
+        ran = isinstance(impl, dict) and impl.get('n', 0) >= 1 and len(impl.get('seeds', [])) >= 2
+        return {'n_objs': 0, 'n_ops': 0, 'first_op': 'hashseeds',
+                'branches': ['hashseed:subprocess'] if ran else []}
     br = set()
     names = [op['op'] for op in case['ops']]
     for op in case['ops']:
@@ -1693,6 +1937,17 @@ def features(case, impl):
             permute_keeps()
             sim = [_ref_of(o) for o in case['objs']]
             dropped = {}            # store position -> rdm-descriptor keys an append dropped there
+            # round 6: insertion order of the dictionaries.  `det[i]`: the order of object i's rdm-descriptor
+            # dictionary is the one written in the case (initial objects and what single-source operations
+            # make of them); a merged object's order comes from a set inside the library.  `xi[i]`: object i
+            # descends from an object created with an explicit `index` that is not the last key.
+            det = [True] * len(sim)
+            xi = [any(k == 'index' for k, _ in o['rdesc'][:-1]) for o in case['objs']]
+            okeys = [[k for k, _ in o.get('odesc', [])] for o in case['objs']]
+
+            def _common_order(i, j, get):
+                a, b = get(i), get(j)
+                return [k for k in a if k in b], [k for k in b if k in a]
             for op in case['ops']:
                 if op['op'] in READ_ONLY:
                     if op['op'] == 'to_df' and 0 <= op['src'] < len(sim):
@@ -1708,6 +1963,37 @@ def features(case, impl):
                     if 'different dissimilarity measures' in str(exc):
                         br.add('meas:mixed_rejected')
                     continue
+                # -- round 6 bookkeeping (before `sim` moves on)
+                if op['op'] == 'append':
+                    i, j = op['src'], op['other']
+                    a, b = _common_order(i, j, lambda q: list(sim[q]['rdesc']))
+                    if det[i] and det[j] and a != b:
+                        br.add('dict-order:permuted-append')
+                    if not (det[i] and det[j]):
+                        br.add('dict-order:append-after-merge')
+                    if xi[i] or xi[j]:
+                        br.add('dict-order:index-explicit')
+                elif op['op'] in ('concat', 'from_partials'):
+                    srcs = op['srcs']
+                    for i in srcs:
+                        for j in srcs:
+                            if i < j and det[i] and det[j]:
+                                a, b = _common_order(i, j, lambda q: list(sim[q]['rdesc']))
+                                if a != b and len(a) >= 2:
+                                    br.add('dict-order:permuted-' + op['op'])
+                                a, b = _common_order(i, j, lambda q: [k for k, _ in sim[q]['pdesc']])
+                                if a != b and op['op'] == 'concat':
+                                    br.add('dict-order:pdesc-permuted')
+                                a, b = _common_order(i, j, lambda q: list(sim[q]['odesc']))
+                                if a != b:
+                                    br.add('dict-order:odesc-permuted')
+                    if any(xi[i] for i in srcs):
+                        br.add('dict-order:index-explicit')
+                    det.append(False)
+                    xi.append(False)
+                elif op['op'] not in IN_PLACE and len(new) > len(sim):
+                    det.append(det[op['src']])
+                    xi.append(xi[op['src']])
                 if op['op'] == 'append':
                     lost = [k for k in sim[op['other']]['rdesc'] if k not in sim[op['src']]['rdesc']]
                     if lost:
@@ -1749,6 +2035,8 @@ def features(case, impl):
 
 
 def nontrivial_key(case, impl):
+    if case.get('kind') == 'hashseeds':
+        return None
     if not any(op['op'] not in READ_ONLY for op in case['ops']):
         return None
     shapes = [(len(o['vecs']), len(o['vecs'][0])) for o in case['objs']]
@@ -1758,6 +2046,44 @@ def nontrivial_key(case, impl):
 
 def shrink(case, still_fails):
     """keep the prefix up to the failing step, then drop operations that are not needed"""
+    if case.get('kind') == 'hashseeds':
+        # the one offending session: as an ordinary case if it fails in this process too, else a batch of one
+        o = oracle(case)
+        if not o or 'session' not in o:
+            return case
+        sub = case['cases'][o['session']]
+        if still_fails(sub):
+            return shrink(sub, still_fails)
+        one = hash_batch_case([sub], case['seeds'])
+        return one if still_fails(one) else case
+    original = copy.deepcopy(case)
+    small = _shrink_session(case, still_fails)
+    # a replay must stand on its own: a failure that needed state left in the library by earlier sessions of
+    # this process (a module-level cache ...) may vanish from the shrunk case.  Confirm it in fresh processes;
+    # otherwise fall back to the unshrunk session if that one fails on its own.
+    global _FRESH_BUDGET
+    if _FRESH_BUDGET <= 0:          # run_check shrinks every failing session but writes at most a few replays
+        return small
+    _FRESH_BUDGET -= 1
+    try:
+        if _fresh_fails(small):
+            return small
+        if _fresh_fails(original):
+            return original
+    except Exception:  # noqa: BLE001
+        pass
+    return small
+
+
+_FRESH_BUDGET = 4
+
+
+def _fresh_fails(case):
+    outs = _hash_workers([case], HASHSEEDS_QUICK, True)
+    return any(outs[sd][0].get('oracle') for sd in outs)
+
+
+def _shrink_session(case, still_fails):
     case = copy.deepcopy(case)
     o = oracle(case)
     if o and isinstance(o.get('step'), int) and o['step'] >= 0:
